@@ -504,6 +504,10 @@ class SimSelector(object):
         self._objs = []
 
     def register(self, fileobj, events, data=None):
+        fd = fileobj if isinstance(fileobj, int) else fileobj.fileno()
+        if fd < 0:
+            # as selectors._fileobj_to_fd does for a closed socket
+            raise ValueError("Invalid file descriptor: {}".format(fd))
         self._objs.append(fileobj)
         return fileobj
 
